@@ -907,7 +907,7 @@ class CSSSerializer:
                     out.append(val.cssText, type_)
                     out.append(self.prefs.lineSeparator)
 
-            return out.value().strip()
+            return out.value().strip(' \t\r\n\f')
 
         else:
             return ''
